@@ -430,8 +430,8 @@ fn cmd_check(prop: Prop, tier: &str) -> i32 {
     cov.set(
         "rule",
         J::s(&format!(
-            "one evaluation = one simulated run (seeded schedule + fault sequence + workload on 2-5 real MCTPSMBusContext nodes, <= {} scheduler steps, then a fault-free drain); run i of a batch is a pure function of (VERIF_SEED, i). A run is non-trivial when at least one {} oracle was evaluated on an in-domain event; distinct = distinct 64-bit FNV digests of the complete event log (frames, faults, deliveries, results) among non-trivial runs, counted with a hash set.",
-            250,
+            "one evaluation = one simulated run (seeded schedule + fault sequence + workload on 2-5 real MCTPSMBusContext nodes, <= {} scheduler steps (per-run budget 80/250/600), then a fault-free drain); run i of a batch is a pure function of (VERIF_SEED, i). A run is non-trivial when at least one {} oracle was evaluated on an in-domain event; distinct = distinct 64-bit FNV digests of the complete event log (frames, faults, deliveries, results) among non-trivial runs, counted with a hash set.",
+            600,
             prop.id()
         )),
     );
